@@ -7,6 +7,8 @@ Concurrency is modelled as interleavings of atomic actions on one shared state:
 * `subscribe n k`   — `Subscribe`: the event is appended to `subInfoChan` (`subQ`) and a goroutine
                       starts waiting on `n.Err()` (`waiting`);
 * `errFires n`      — `n`'s error channel is closed (`dead`);
+* `errOne n`        — one error value is sent on `n`'s (open) error channel: exactly one waiting
+                      goroutine of `n` — the one that blocked first — sends its event;
 * `wake e`          — a waiting goroutine whose notifier is dead sends its event to
                       `unsubInfoChan` (`unsubQ`); goroutines wake in any order, at any time;
 * `processSub` / `processUnsub` — one iteration of `process` taking the `subInfoChan` /
@@ -89,6 +91,7 @@ def deliveries (t : Table) (keys : List Key) (m : Msg) : List Delivery :=
 inductive Act where
   | subscribe (n : Notifier) (k : Key)
   | errFires (n : Notifier)
+  | errOne (n : Notifier)
   | wake (e : Ev)
   | processSub
   | processUnsub
@@ -98,6 +101,10 @@ deriving Repr, DecidableEq
 def step (s : State) : Act → State
   | .subscribe n k => { s with subQ := s.subQ ++ [⟨k, n⟩], waiting := s.waiting ++ [⟨k, n⟩] }
   | .errFires n => { s with dead := n :: s.dead }
+  | .errOne n =>
+    match s.waiting.find? (fun e => e.n = n) with
+    | some e => { s with waiting := s.waiting.erase e, unsubQ := s.unsubQ ++ [e] }
+    | none => s
   | .wake e =>
     if e ∈ s.waiting ∧ e.n ∈ s.dead then
       { s with waiting := s.waiting.erase e, unsubQ := s.unsubQ ++ [e] }
